@@ -12,6 +12,7 @@ import Nstd.Future.LiveReduce
 import Nstd.Future.LiveSpawn
 import Nstd.Future.Terminal
 import Nstd.Future.Fair
+import Nstd.Future.Fair2
 import Nstd.Future.Handshake
 import Nstd.Future.HandshakeWitness
 /-
@@ -229,7 +230,7 @@ theorem terminal_state_is_complete {cfg : Config} {s : State} (hrep : cfg.repair
 
 /-- `join_eventually`, proved part: every MAXIMAL FINITE schedule of the repaired system (a schedule after which no thread
     can step) ends with all joins returned and every started call executed exactly once.  What is missing for the full
-    statement is termination of every weakly fair schedule (see the OPEN block at the end of this file). -/
+    statement is termination of every weakly fair schedule: `fair_runs_terminate`, hence `join_eventually` below. -/
 theorem join_eventually_partial {cfg : Config} (hrep : cfg.repaired = true) (hwf : cfg.WellFormed)
     (sched : List Tid) {s : State} (hrun : runSched (State.init cfg) sched = some s) (hmax : ∀ t, enabled s t = false) :
     (∀ t th, s.threads t = some th → th.finished = true) ∧
@@ -244,21 +245,36 @@ theorem fair_run_never_stalls {cfg : Config} {σ : Nat → Tid} {run : Nat → S
     (∀ t, enabled (run n) t = false) ∨ ∃ m, n ≤ m ∧ run (m + 1) ≠ run m :=
   fair_run_progresses_or_terminal hf n
 
-/-- Weak fairness, proved part 2 (`join_eventually` relative to a budget): if some `B : State → Nat` never increases along
-    micro-steps and strictly decreases on the state-changing steps at the ten loop heads, on thread creation and when
-    `_tail`/`_head` move, then every weakly fair run of the repaired system reaches a state in which every thread has
-    finished and every started call has been executed and freed exactly once.  Constructing `B` is the OPEN part. -/
-theorem join_eventually_partial_budget {cfg : Config} {σ : Nat → Tid} {run : Nat → State} (hrep : cfg.repaired = true)
-    (hwf : cfg.WellFormed) (B : State → Nat)
-    (hle : ∀ (s s' : State) (t : Tid) (o : List String), Reach cfg s → step s t = some (s', o) → B s' ≤ B s)
-    (hlt : ∀ (s s' : State) (t : Tid) (o : List String) (th : Thread) (fr : Frame) (rest : List Frame),
-      Reach cfg s → step s t = some (s', o) → s' ≠ s → s.threads t = some th → th.stack = fr :: rest →
-      (FR.isBack fr = true ∨ FR.spawns fr = true ∨ FR.rtl s' ≠ FR.rtl s ∨ FR.rhd s' ≠ FR.rhd s) → B s' < B s)
-    (hf : FairRun cfg σ run) :
+/-- Termination measure: on the reachable states of the repaired system the relation "some micro-step of some thread
+    changes the state" has no infinite chain (lexicographic measure: remaining work events, Signal::set / `_state` credits,
+    wait-loop credits, frame distance).  The only state-preserving micro-steps are failing spins on the pool-creation lock. -/
+theorem progresses_wf {cfg : Config} (hrep : cfg.repaired = true) : WellFounded (Progresses cfg) :=
+  Nstd.Future.progresses_wf hrep
+
+/-- Every weakly fair run of the repaired system (every thread that stays enabled is eventually scheduled; schedules may
+    also pick disabled threads) reaches a state in which no thread can step. -/
+theorem fair_runs_terminate {cfg : Config} {σ : Nat → Tid} {run : Nat → State} (hrep : cfg.repaired = true)
+    (hf : FairRun cfg σ run) : ∃ n, ∀ t, enabled (run n) t = false :=
+  Nstd.Future.fair_runs_terminate hrep hf
+
+/-- **`join_eventually`** — the liveness clause of C10, outright: for every configuration (any number of client threads,
+    futures, workers, any queue capacity and thread limits; each future used by one client; bodies terminate and do not
+    wait on other futures — they are the model's bodies) and EVERY weakly fair run of the repaired system there is a point
+    at which every thread has finished — so every `join()`, destructor, result conversion and `Future::start` has
+    returned — and every started call has completed, was executed exactly once and its record was freed exactly once. -/
+theorem join_eventually {cfg : Config} {σ : Nat → Tid} {run : Nat → State} (hrep : cfg.repaired = true)
+    (hwf : cfg.WellFormed) (hf : FairRun cfg σ run) :
     ∃ n, (∀ t th, (run n).threads t = some th → th.finished = true) ∧
       (∀ c, c < (run n).nextCall →
         (run n).completed c = true ∧ (run n).execCount c = 1 ∧ (run n).freeCount c = 1) :=
-  join_eventually_of_budget hrep hwf B hle hlt hf
+  Nstd.Future.join_eventually hrep hwf hf
+
+/-- Negation witness for the ORIGINAL `FastSignal`: a reachable state from which one thread alone repeats a cycle of
+    state-changing micro-steps (a waiter busy-spins through `wait()` on a stale Signal), so the step relation is not
+    well-founded and weak fairness does not suffice there (the defect repaired by fix 0005). -/
+theorem busy_spin_witness_orig :
+    ∃ cfg : Config, cfg.repaired = false ∧ cfg.WellFormed ∧ ¬ WellFounded (Progresses cfg) :=
+  progresses_not_wf_orig
 
 /-- Mutual exclusion and progress of the simulated Signal layer inside the full model (both code variants): the two
     pool signals' mutexes are exclusive; a thread blocked on any Signal mutex has an owner that can step; a thread
@@ -347,34 +363,12 @@ theorem d17_start_never_returns_witness : ∃ sched s, runSched (State.init d17b
     exact ⟨d17bSched, s, hr, h.1.1.1, h.1.1.2, h.1.2, h.2⟩
 
 /-
-OPEN: join_eventually   (liveness under weak fairness, full model of the repaired code)
-
-  theorem join_eventually (hrep : cfg.repaired = true) (hwf : cfg.WellFormed)
-      (σ : Nat → Tid) (run : Nat → State) (h0 : run 0 = State.init cfg)
-      (hstep : ∀ n, (∃ o, step (run n) (σ n) = some (run (n+1), o)) ∨ (step (run n) (σ n) = none ∧ run (n+1) = run n))
-      (hfair : ∀ t n, (∀ m ≥ n, enabled (run m) t = true) → ∃ m ≥ n, σ m = t) :
-      ∀ n t f, topFrame (run n) t = some (.join f) → ∃ m ≥ n, topFrame (run m) t ≠ some (.join f)
-         -- (more precisely: the thread has left join(): the frame below `join f` is on top)
-
-  PROVED of it (this file, full model, every schedule, any number of threads, any capacity): `join_eventually_partial`
-    (every maximal finite schedule ends with all joins returned and every call executed exactly once =
-    `terminal_state_is_complete`), its deadlock-freedom core
-    `no_stuck` (unconditional: whenever some thread is unfinished, some thread can step), with `no_stuck_worker_side`,
-    `no_stuck_producer_side`, `no_stuck_join_side`, `no_stuck_shutdown_side`, `queued_job_served`,
-    `no_stuck_while_a_worker_lives`, `signal_layer_progress`, `deadlock_shape`, `started_call_is_never_lost`,
-    `terminate_jobs_balance`, `counters_identity`; and the safety half (`join_after_completion`: when join returns the
-    call has run exactly once).
-  Also proved: `fair_run_never_stalls` (a weakly fair run never stays forever in a non-terminal state) and the reduction
-    `join_eventually_partial_budget` (Fair*.lean: fairness, spinning and schedules are discharged; straight-line code and
-    CAS retries are measured by `frameDist`; what remains is a budget `B : State → Nat` for the ten cross-thread loop heads).
-  MISSING for `join_eventually`: exactly that budget ("remaining pushes/pops + wake credits") with its invariants, i.e.
-    that every weakly fair schedule is finite — a ranking argument on top of `no_stuck`; the CAS retry loops of
-    push/pop and the spin lock of the lazily created pool are lock-free, not wait-free, and the back-pressure / idle loops
-    re-check; one needs a well-founded measure showing that every fair run reaches the end of the (finite) client
-    scripts.  Not attempted.
-  Evidence that is NOT a proof: every controlled-scheduler run of the real code ends (`DONE`, no step bound hit under the
-  fair random policy), as do all random micro-step walks of the model; negation witnesses for the ORIGINAL code are
-  theorems above.
+OPEN: nothing.  (`join_eventually` was open until round 2; it needed one more repair of the code, fix 0005: with the
+  earlier `FastSignal::reset` a waiter could busy-spin on a stale Signal (`busy_spin_witness_orig`, Fair2Neg/Fair2Stuck),
+  the step relation was not well-founded and a thread needing the Signal mutex could starve under weak fairness.)
+  Not covered by any theorem here, by construction of the model: real scheduler timing, weak-memory effects on the plain
+  volatile accesses, `usize` wrap-around, bodies that do not terminate or that wait on other futures, several client threads
+  using one Future object.
 -/
 
 end Nstd.Future.C10
